@@ -46,11 +46,13 @@ def make_sub(kind, axes, idx):
     from gwcs import coordinate_frames as cf
     if kind == "cel":
         rf = [coord.ICRS(), coord.FK5(), coord.Galactic()][idx % 3]
-        return cf.CelestialFrame(reference_frame=rf, axes_order=tuple(axes), unit=(u.deg, u.deg), name=f"sky{idx}")
+        un = [(u.deg, u.deg), (u.arcmin, u.arcmin), (u.deg, u.arcmin)][(idx + len(axes) + axes[0]) % 3]
+        return cf.CelestialFrame(reference_frame=rf, axes_order=tuple(axes), unit=un, name=f"sky{idx}")
     if kind in ("spec", "spec2", "spec3"):
         return cf.SpectralFrame(axes_order=tuple(axes), unit={"spec": (u.um,), "spec2": (u.Hz,), "spec3": (u.J,)}[kind], name=f"{kind}{idx}")
     if kind == "time":
-        return cf.TemporalFrame(Time("2020-01-01T00:00:00"), axes_order=tuple(axes), unit=(u.s,), name=f"time{idx}")
+        return cf.TemporalFrame(Time("2020-01-01T00:00:00"), axes_order=tuple(axes), unit=[(u.s,), (u.min,), (u.d,)][(idx + axes[0]) % 3],
+                                name=f"time{idx}")
     if kind == "stokes":
         return cf.StokesFrame(axes_order=tuple(axes), name=f"stokes{idx}")
     return cf.CoordinateFrame(1, axes_type=("SPATIAL",), axes_order=tuple(axes), unit=(u.m,), name=f"gen{idx}", axes_names=(f"g{idx}",))
@@ -64,11 +66,11 @@ def object_values(kind, obj, sub):
     from astropy.time import Time
     import astropy.units as u
     if kind == "cel":
-        return [float(obj.spherical.lon.deg), float(obj.spherical.lat.deg)]
+        return [float(obj.spherical.lon.to_value(sub.unit[0])), float(obj.spherical.lat.to_value(sub.unit[1]))]
     if kind in ("spec", "spec2", "spec3"):
         return [float(obj.to_value(sub.unit[0]))]
     if kind == "time":
-        return [float((obj - sub.reference_frame).sec)]
+        return [float((obj - sub.reference_frame).to_value(sub.unit[0]))]
     if kind == "stokes":
         return [float(np.asarray(obj.value))]
     return [float(obj.to_value(u.m))]
@@ -132,7 +134,7 @@ def run(ctx):
         world = [None] * n
         for k, a in zip(kinds, axes):
             for s, i in zip(slot_names(k), a):
-                world[i] = VALUE[s] + (0.25 * i if s != "stokes" else 0.0)      # Stokes values must stay integral
+                world[i] = VALUE[s] + (0.2 * i if s != "stokes" else 0.0)       # Stokes values must stay integral; no half-integers (the index of x.5 is not stable under a unit round trip)
         pix = list(world)
         ident = all(a == sorted(a) for a in axes) and [i for a in axes for i in a] == list(range(n))
         ctx.case(key=tag, nontrivial=not ident, kind=f"n{n}/{len(kinds)}frames", sample={"frames": kinds, "axes_order": axes, "world": world})
